@@ -9,9 +9,12 @@ import (
 	"os/exec"
 	"runtime"
 	"strings"
+	"sync"
 	"syscall"
 	"time"
 
+	codec "github.com/uhppoted/uhppote-core/encoding/UTO311-L0x"
+	"github.com/uhppoted/uhppote-core/messages"
 	"github.com/uhppoted/uhppote-core/types"
 	"github.com/uhppoted/uhppote-core/uhppote"
 )
@@ -42,6 +45,31 @@ func (l *slowListener) OnError(err error) bool { l.errors++; return true }
 
 // child: start the real listener, deliver events while the first callback is still busy, signal shutdown, wait
 func runListenStop(o Opts) error {
+	// cold start: the first thing this fresh process does with the library is decode and encode from many goroutines
+	// at once (an application's listener and its API calls start together) - whatever the library initialises lazily
+	// is initialised under contention; an unsynchronised package-level table ends the process with a fatal error
+	{
+		var wg sync.WaitGroup
+		for g := 0; g < 32; g++ {
+			wg.Add(1)
+			go func(g int) {
+				defer wg.Done()
+				defer func() { recover() }()
+				for code := 0; code < 256; code++ {
+					buf := make([]byte, 64)
+					buf[0], buf[1] = 0x17, byte((code+g*8)%256)
+					buf[4] = 1
+					if v, err := messages.UnmarshalResponse(buf); err == nil && v != nil {
+						codec.Marshal(v)
+					}
+					if v, err := messages.UnmarshalRequest(buf); err == nil && v != nil {
+						codec.Marshal(v)
+					}
+				}
+			}(g)
+		}
+		wg.Wait()
+	}
 	for _, block := range []time.Duration{200 * time.Millisecond, 1500 * time.Millisecond} {
 		port := freeUDPPort()
 		bind := types.BindAddrFrom(netip.IPv4Unspecified(), 0)
